@@ -328,6 +328,8 @@ def run(ctx):
             else:
                 hosts.append(("h%d" % i, b, "-", "-", 0))
         args = ["-R", "sim", "-f", str(f), "-t", str(tconn), "-u", str(tcmd), "-w", "h[0-%d]" % (n - 1), "cmd"]
+        if early_bad >= 5:
+            break       # failing schedules in hand already: report them rather than explore further
         pr = schedeng.explore_pb(eng, args, hosts, depth, spur=1, max_runs=2500 if quick else 150000, env={"SCHED_MAXSTEP": "30000"}, timeout=10)
         pbstat["%s f=%d depth=%d" % (behs, f, depth)] = len(pr)
         for ru in pr:
